@@ -15,7 +15,23 @@ type Entry = core.Entry
 var registry []Entry
 
 // Register adds entries (called from init functions of reg_*_test.go).
-func Register(es ...Entry) { registry = append(registry, es...) }
+//
+// Every Call is wrapped so that the entry point receives a copy of the input
+// whose capacity equals its length: the generator's truncations (v[:l]) keep
+// the capacity of the valid encoding, and a slice expression data[:n] with
+// len(data) < n <= cap(data) does not panic — a missing length check would stay
+// invisible for exactly the truncated inputs.
+func Register(es ...Entry) {
+	for _, e := range es {
+		call := e.Call
+		e.Call = func(b []byte) {
+			c := make([]byte, len(b))
+			copy(c, b)
+			call(c)
+		}
+		registry = append(registry, e)
+	}
+}
 
 func seedBytes(n int, tag uint64) []byte { return core.SeedBytes(n, tag) }
 func mustB(b []byte, err error) []byte   { return core.MustB(b, err) }
